@@ -54,6 +54,16 @@ def generate(seed, tier="quick"):
         for t in f["tests"]:
             t["name"] = f"test_{pool[i % len(pool)]}{i}"
             i += 1
+    # a test marked xfail that uses no snapshot (it passes: XPASS, non-strict): all three drivers still have to agree on the other tests
+    xr = sub(seed, "xfail")
+    if xr.random() < 0.25:
+        fs = sorted(prog["files"], key=lambda f: f["name"])
+        f = fs[-1] if xr.random() < 0.6 else xr.choice(fs)
+        t = {"name": f"test_marked{i}", "events": [], "xfail": True}
+        if xr.random() < 0.6:
+            f["tests"].append(t)  # the last test of the module (and, in the last module, of the session)
+        else:
+            f["tests"].insert(xr.randrange(len(f["tests"]) + 1), t)
     frng = sub(seed, "flags")
     steps = []
     for _ in range(frng.choice([1, 1, 2, 3])):
